@@ -268,14 +268,15 @@ func TestC05(t *testing.T) {
 				}
 				return "", ""
 			}
-			sig, what := decide()
-			if sig != "" {
-				// bounded liveness: confirm over a sustained quiescent window before declaring a violation
-				if ok, _ := w.Q.Sustained(3 * time.Second); ok {
-					sig, what = decide()
-				} else if ok2, _ := w.Quiesce(); ok2 {
-					sig, what = decide()
-				}
+			// bounded liveness: a violation only if it still holds after a sustained quiescent window
+			sig, what := "", ""
+			_, unstable := w.ConfirmStable(func() string {
+				sig, what = decide()
+				return sig
+			}, 3*time.Second)
+			if unstable != "" {
+				rep.Inconclusive("case %d: %s", ci, unstable)
+				sig = ""
 			}
 			if sig != "" {
 				// known-finding predicate (hook events): one of the responder's message queues shut itself down during the
